@@ -88,3 +88,33 @@ PROPS["C09"] = dict(
     trusted_base=COMMON_TB + ["RefCell borrow semantics are modelled (self-link / same-cell double borrow = Panic.borrow), not verified"],
     assumptions=COMMON_AS,
 )
+
+PROPS["C05"] = dict(
+    gen=cases.gen_C05,
+    oracle=cases.oracle_C05,
+    mask={"cat", "time"},
+    rule="for each of the 12 stateful stream types (+ both EWMA/MA variants, three CommandPID kinds): every interleaving of "
+         "{present, absent, Err(1), Err(2)} up to length 4 (thorough 5) exhaustively, random histories up to 48 events each with a "
+         "metamorphic companion (suffix from a reset event; absent events deleted) checked on the implementation's own outputs; "
+         "get() read twice per step; freeze over all condition histories {Err, None, true, false}^n x input categories. "
+         "Numeric values are owned by C04/C10/C11/C12 (compared there), here categories, error identity, update return, timestamps.",
+    trusted_base=COMMON_TB,
+    assumptions=COMMON_AS + ["CommandPID: an update in which the *followed command getter* errors aborts before the input is read; "
+                             "the no-stale-error clause is stated for updates that read the input"],
+)
+
+NUM_TOL = (1e-4, 1e-7)   # used only to LABEL a float disagreement (inside: no failing input found; outside: failing input)
+
+PROPS["C11"] = dict(
+    gen=cases.gen_C11,
+    mask={"cat", "time", "float"},
+    tol=NUM_TOL,
+    rule="for each command kind: every interleaving of {present, absent, Err(1), Err(2)} inputs up to length 4, and random sequences up "
+         "to 48 (96) events over {present state sample with increasing timestamp (dt 1 us..hours log-uniform), absent, error, set(same "
+         "command), set(different kind/value), follow / change of the followed command getter (present/absent/error), stop_following, "
+         "reset(), get_last_request}, random gains; NaN command corner case; compared bit-for-bit with the Float32 model",
+    trusted_base=COMMON_TB,
+    assumptions=COMMON_AS,
+    partial="The staged PID/integral computation is proved equal to a non-incremental specification for every event history (tier S, "
+            "bit-exact for f32); that the specification approximates the continuous PID law is not a claim of rounding analysis.",
+)
